@@ -33,7 +33,7 @@ ASSUMPTIONS = [
 ]
 
 MAX_STATEMENTS = 20000
-GLOBAL_POOL = [None, True, False, 0.0, 2.0, 3, -1.5, '', 'q', 'ab', [], [1.0, 'a'], [3.0, 2.0, 1.0], {}, {'k': 1.0},
+GLOBAL_POOL = [None, True, False, 0.0, 2.0, 1, 3.0, -1.5, '', 'q', 'ab', [], [1.0, 'a'], [3.0, 2.0, 1.0], {}, {'k': 1.0},
                datetime.datetime(2020, 1, 2, 3, 4, 5), datetime.date(2021, 6, 7), gv.host_fn_b, gv.REGEXES[0], [[], [0.0]], 1e15, 'null']
 TYPE_LETTER = {'null': 'z', 'boolean': 'b', 'number': 'n', 'string': 's', 'datetime': 'd', 'array': 'a', 'object': 'o', 'function': 'f',
                'regex': 'r'}
